@@ -110,6 +110,12 @@ class PanicScan:
                         src = [st for st in blk.stmts if st.k == "assign" and st.place.is_local() and st.place.local == t.cond.place.local and st.rv["k"] == "bin"]
                         if src and src[-1].rv["l"].kind == "const" and src[-1].rv["r"].kind == "const":
                             continue
+                        # `n.get() - 1` for a NonZero integer: the minuend is >= 1 by the type's invariant
+                        if src and src[-1].rv["op"].startswith("Sub") and src[-1].rv["r"].kind == "const" and src[-1].rv["r"].int_value() == 1 and src[-1].rv["l"].place is not None and src[-1].rv["l"].place.is_local():
+                            ml = src[-1].rv["l"].place.local
+                            dfs = [(bj, tj) for bj, tj in b.calls() if tj.dest is not None and tj.dest.is_local() and tj.dest.local == ml]
+                            if len(dfs) == 1 and dfs[0][1].callee.method == "get" and "NonZero" in ((dfs[0][1].callee.name or "") + (dfs[0][1].callee.def_args or "")) and not [st for _, st in b.stmts() if st.k == "assign" and st.place.is_local() and st.place.local == ml]:
+                                continue
                 elif t.k == "call":
                     n_calls += 1
                     c = t.callee
@@ -1466,6 +1472,56 @@ def steps_after_call(body, pv, pred, max_depth=12, start=0):
     return steps if found[0] else None
 
 
+def result_sources(body, pv, max_depth=10):
+    """the calls / constants / aggregates whose value becomes the function's result, following plain moves and copies back from `_0`:
+    list of ('call', terminator) | ('const', operand) | ('other', stmt)"""
+    defs = pv.defs(body)
+    out = []
+    seen = set()
+
+    def walk(local, depth):
+        if depth > max_depth or local in seen:
+            return
+        seen.add(local)
+        for kind, pos, d in defs.get(local, []):
+            if kind == "call":
+                out.append(("call", d))
+            else:
+                rv = d.rv
+                if rv["k"] == "use" and rv["op"].kind == "const":
+                    out.append(("const", rv["op"]))
+                elif rv["k"] in ("use",) and rv["op"].place is not None and rv["op"].place.is_local():
+                    walk(rv["op"].place.local, depth + 1)
+                else:
+                    out.append(("other", d))
+    walk(0, 0)
+    return out
+
+
+def private_scope(prog, body, depth=4):
+    """the function with its closures, plus the crate-PRIVATE code it reaches (helpers in any module, methods of private types, and the
+    per-type implementations of crate traits that are called through a type parameter): list of bodies"""
+    seen = {}
+    work = [(body, 0)]
+    while work:
+        b, d = work.pop()
+        for fb in prog.family(b):
+            if fb.id in seen:
+                continue
+            seen[fb.id] = fb
+            if d >= depth:
+                continue
+            for _, t in fb.calls():
+                tg = prog.bodies.get(t.callee.res or "")
+                if tg is not None and tg.kind in ("Fn", "AssocFn") and not tg.test and not (tg.exported or tg.reachable) and tg.id not in seen:
+                    work.append((tg, d + 1))
+                elif t.callee.res is None and t.callee.trait and not t.callee.trait.startswith(("std::", "core::", "alloc::")):
+                    for y in prog.production():
+                        if y.kind == "AssocFn" and y.impl_trait == t.callee.trait and y.name == t.callee.method and y.id not in seen and not y.exported:
+                            work.append((y, d + 1))
+    return list(seen.values())
+
+
 def receiver_calls(body, pv, op):
     """the call terminators between an operand and its source, walking receivers (args[0]) backwards (outermost first)"""
     out = []
@@ -1475,8 +1531,12 @@ def receiver_calls(body, pv, op):
     while cur is not None and cur.place is not None and cur.place.local not in seen:
         l = cur.place.local
         seen.add(l)
+        if 1 <= l <= body.nargs:
+            break  # a parameter: the chain starts here (writes THROUGH it, `self.field = ..`, are not where it comes from)
         nxt = None
         for kind, pos, d in defs.get(l, []):
+            if kind == "assign" and not d.place.is_local():
+                continue
             if kind == "call":
                 out.append(d)
                 nxt = d.args[0] if d.args else None
@@ -1589,6 +1649,17 @@ def check_required_steps(ck, rule, prog, body, steps):
                                     work_h.append((nb, d + 1))
                             if hit:
                                 break
+            if not hit:
+                # ... or inside a trait method of a private type this call constructs (`v.extend(PairwiseScores::new(..))`: the step sits in
+                # `<PairwiseScores as Iterator>::next`, which the consuming std adaptor drives)
+                tg = prog.bodies.get(t.callee.res) if t.callee.res else None
+                adt_ = (tg.impl_self or {}).get("adt") if tg is not None and tg.kind == "AssocFn" and not tg.impl_trait else None
+                if adt_ and not (prog.adts.get(adt_, {}).get("pub") and tg.exported):
+                    for xb in prog.production():
+                        if xb.kind == "AssocFn" and xb.impl_trait and (xb.impl_self or {}).get("adt") == adt_:
+                            if any(pred(ct) for fb in prog.family(xb) for _, ct in fb.calls()):
+                                hit = True
+                                break
             if hit:
                 blocks.add(bi)
                 # innermost..outermost loop headers containing the call
@@ -1609,7 +1680,7 @@ EQ_METHODS = {"eq": ("Eq", False), "ne": ("Eq", True), "lt": ("Lt", False), "ge"
 EQ_BINOPS = {"Eq": ("Eq", False), "Ne": ("Eq", True), "Lt": ("Lt", False), "Ge": ("Lt", True), "Gt": ("Gt", False), "Le": ("Gt", True)}
 
 
-def bool_table(body, atom_key, max_paths=4096, call_atom=None, place_atom=None):
+def bool_table(body, atom_key, max_paths=4096, call_atom=None, place_atom=None, value_result=False):
     """Enumerate the paths of a loop-free boolean body.  Atomic predicates are comparison calls / binary comparisons;
     `atom_key(kind, lhs_operand, rhs_operand, body)` names one (hashable) or returns None (unknown -> whole table undecided).
     kind is the positive comparison ('Eq' | 'Lt' | 'Gt'); negated forms (ne, ge, le) are folded into the polarity.
@@ -1646,6 +1717,13 @@ def bool_table(body, atom_key, max_paths=4096, call_atom=None, place_atom=None):
                 continue
             rv = st.rv
             l = st.place.local
+            if value_result and l == 0:
+                # which kind of value the function returns on this path: a float / integer constant, or something computed
+                fv = rv["op"].float_value() if rv["k"] == "use" and rv["op"].kind == "const" else None
+                if fv is None and rv["k"] == "use" and rv["op"].kind == "const" and rv["op"].int_value() is not None:
+                    fv = float(rv["op"].int_value())
+                env["ret"] = ("const", fv) if fv is not None else ("expr",)
+                continue
             if rv["k"] == "use":
                 env[l] = val_of(env, rv["op"])
             elif rv["k"] == "un" and rv["op"] == "Not":
@@ -1667,6 +1745,8 @@ def bool_table(body, atom_key, max_paths=4096, call_atom=None, place_atom=None):
             elif t.dest is not None and t.dest.is_local():
                 k = call_atom(t, body) if call_atom is not None else None
                 env[t.dest.local] = None if k is None else ("a", k, False)
+                if value_result and t.dest.local == 0:
+                    env["ret"] = ("expr",)
             if t.target is None:
                 return
             walk(t.target, env, asg)
@@ -1693,6 +1773,8 @@ def bool_table(body, atom_key, max_paths=4096, call_atom=None, place_atom=None):
                     na = dict(asg)
                     na[k] = a
                     walk(t_tg if truth else f_tg, env, na)
+        elif t.k == "return" and value_result:
+            rows.append((asg, env.get("ret", ("expr",))))
         elif t.k == "return":
             r = env.get(0)
             if r is None:
